@@ -149,6 +149,14 @@ func observe16(c caseC16) (obs []string) {
 		// returned error must not depend on the schedule
 		var log lockedBuf
 		f := &scriptFile{data: []byte(c.Input.source()), script: c.Script, name: "n"}
+		// a slow medium: every read after the first takes a moment, so that
+		// the parser has usually finished with the failing first page by the
+		// time the next read returns (the schedule the outcome must not depend on)
+		f.onRead = func(k int) {
+			if k >= 1 {
+				time.Sleep(time.Duration(100+50*(k%4)) * time.Microsecond)
+			}
+		}
 		done := make(chan error, 1)
 		go func() {
 			_, err := bcl.ParseFile(f, bcl.OptLogger(&log), bcl.OptOutput(io.Discard))
